@@ -129,17 +129,6 @@ theorem segsOf_ok {p : Pat} {segs : List Seg} (h : segsOf p = some segs) :
 
 /-! ### byte-search facts -/
 
-theorem indexOf_singleton : (s : Bytes) → (c : Nat) → indexOf s [c] = indexByte s c
-  | [], c => by simp [indexOf, indexByte]
-  | x :: xs, c => by
-    unfold indexOf indexByte
-    rw [indexOf_singleton xs c]
-    by_cases h : x = c
-    · subst h; simp
-    · have h1 : (x == c) = false := beq_eq_false_iff_ne.mpr h
-      have h2 : (c == x) = false := beq_eq_false_iff_ne.mpr (Ne.symm h)
-      simp only [List.isPrefixOf, h2, Bool.false_and, Bool.false_eq_true, if_false, h1]
-
 theorem contains_false_indexByte (s : Bytes) (c : Nat) (h : s.contains c = false) : indexByte s c = none := by
   induction s with
   | nil => rfl
@@ -251,6 +240,79 @@ theorem findParamLen_fill {seg : Seg} {rest : List Seg} {v tail : Bytes}
     findParamLen (v ++ tail) seg = v.length :=
   findParamLen_fill_core hm hm2 hp hnext hesc hslash hlast hidx
     (fun hr hg hc => by have := honce hr hg; omega)
+
+/-! ### `findParamLen(s, segment, following)`: when the full constant replaces the search text -/
+
+theorem fullConst_nil (s : Bytes) (seg : Seg) : fullConst s seg [] = none := by
+  unfold fullConst
+  split <;> rfl
+
+theorem fullConst_noFull {s : Bytes} {seg n : Seg} {rest' : List Seg}
+    (h : ¬ n.const.length > seg.comparePart.length) : fullConst s seg (n :: rest') = none := by
+  unfold fullConst
+  split
+  · rfl
+  · have : (decide (n.const.length > seg.comparePart.length) && (indexOf s n.const).isSome) = false := by
+      simp [h]
+    simp only [this, Bool.false_eq_true, if_false]
+
+theorem fullConst_full {s : Bytes} {seg n : Seg} {rest' : List Seg}
+    (hl : seg.isLast = false) (hlen : seg.length = 0)
+    (hlong : n.const.length > seg.comparePart.length) (hin : (indexOf s n.const).isSome = true) :
+    fullConst s seg (n :: rest') =
+      some { seg with comparePart := n.const, partCount := partCountOf n.const (n :: rest') } := by
+  unfold fullConst
+  have hg : (seg.isLast || (seg.length != 0 && decide (s.length ≥ seg.length))) = false := by
+    simp [hl, hlen]
+  have hc : (decide (n.const.length > seg.comparePart.length) && (indexOf s n.const).isSome) = true := by
+    simp [hlong, hin]
+  simp only [hg, hc, Bool.false_eq_true, if_false, if_true]
+
+theorem paramLen_nil (s : Bytes) (seg : Seg) : paramLen s seg [] = findParamLen s seg := by
+  unfold paramLen
+  rw [fullConst_nil]
+
+/-- the next constant is no longer than the search text (it has no trailing slashes to lose): the
+    search text stays -/
+theorem paramLen_noFull {s : Bytes} {seg n : Seg} {rest' : List Seg}
+    (h : ¬ n.const.length > seg.comparePart.length) : paramLen s seg (n :: rest') = findParamLen s seg := by
+  unfold paramLen
+  rw [fullConst_noFull h]
+
+/-- the path holds the next constant in full and that is longer than the search text: the locals are
+    replaced -/
+theorem paramLen_full {s : Bytes} {seg n : Seg} {rest' : List Seg}
+    (hl : seg.isLast = false) (hlen : seg.length = 0)
+    (hlong : n.const.length > seg.comparePart.length) (hin : (indexOf s n.const).isSome = true) :
+    paramLen s seg (n :: rest') =
+      if seg.isGreedy then
+        findGreedyParamLen s (count s n.const)
+          { seg with comparePart := n.const, partCount := partCountOf n.const (n :: rest') }
+      else findParamLen s { seg with comparePart := n.const, partCount := partCountOf n.const (n :: rest') } := by
+  unfold paramLen
+  rw [fullConst_full hl hlen hlong hin]
+
+/-- a non-greedy parameter that is neither last nor of fixed length ends at the first occurrence of
+    its search text, if the bytes before hold no slash -/
+theorem findParamLen_at {seg : Seg} {v tail : Bytes} (hl : seg.isLast = false) (hlen : seg.length = 0)
+    (hg : seg.isGreedy = false) (hs : v.contains SLASH = false)
+    (hidx : indexOf (v ++ tail) seg.comparePart = some v.length) :
+    findParamLen (v ++ tail) seg = v.length := by
+  have htake : (v ++ tail).take v.length = v := by simp
+  unfold findParamLen
+  simp only [hl, Bool.false_eq_true, if_false, hlen, bne_self_eq_false, Bool.false_and, hg, Bool.not_false,
+    Bool.true_and]
+  split
+  · rename_i h1
+    simp only [beq_iff_eq] at h1
+    have hc1 : seg.comparePart = [seg.comparePart.headD 0] := by
+      match hcp : seg.comparePart, h1 with
+      | [x], _ => rfl
+    rw [hc1, indexOf_singleton] at hidx
+    rw [hidx]
+    simp only [htake, hs, Bool.false_eq_true, if_false]
+  · rw [hidx]
+    simp only [htake, hs, Bool.false_eq_true, if_false]
 
 /-! ### configuration normalisation helpers -/
 
